@@ -20,7 +20,7 @@ RULE = ("well-formed coding graphs of order 1..4: graphs generated for threshold
         "graphs; every kind of live start vertex; messages of length 0..96 (thorough ..2048) biased to empty, all-zero, "
         "leading zeros, odd lengths, powers of two; tables: none / random permutation rows; check lengths 0,1,2,5,33,40; both "
         "modes (fast mode counted in the domain only without out-degree 3).  The observable is decode(encode(m)) and the "
-        "exception type of either call.  non-trivial = message with a 1 bit; distinct by payload")
+        "exception type of either call.  Twin-message cases: the round trip under test is preceded by the round trip of a related message on the same graph (same length incl. 1001..1200 bits, same first/last bits, middle changed / two bits swapped / identical / edges flipped).  non-trivial = message with a 1 bit; distinct by payload")
 TRUSTED_BASE = [
     "Coq 8.16.1 kernel (coqc); no native_compute",
     "Print Assumptions of every C01 theorem: Closed under the global context",
@@ -48,6 +48,37 @@ def payloads(rng, tier):
         table = gen.random_table(rng, len(rows)) if rng.random() < 0.5 else None
         yield "roundtrip", {"k": k, "rows": rows, "v0": v0, "bits": bits, "fast": fast, "table": table,
                             "vt": rng.choice([0, 0, 1, 2, 5, 33, 40]), "kind": kind, "reuse": rng.random() < 0.5}
+    # twin messages: the call under test is preceded by a round trip of a RELATED message on the same graph (same length, same
+    # first and last bits, same number of ones, different middle / identical / same middle and different edges) -- whatever a
+    # function remembers about its previous argument through a lossy summary shows up here.  Lengths include > 1000 bits (where
+    # NumPy abbreviates the text form of an array).
+    for i in range({"quick": 60, "thorough": 600, "search": 40}[tier]):
+        k, kind, rows, v0 = cc.graph_case(rng, min(kmax, 2) if i % 3 == 0 else kmax)
+        fast = rng.random() < 0.3
+        if fast and cc.has_deg3(rows):
+            rows = gen.complete(k)
+            v0 = rng.choice(gen.live_vertices(rows))
+        L = rng.choice([8, 40, 64, 200, 1001, 1024, 1200]) if i % 3 == 0 else rng.choice([8, 16, 40, 64, 65, 128])
+        bits = gen.message(rng, L)
+        bits = bits + [rng.randint(0, 1) for _ in range(L - len(bits))]
+        prev = list(bits)
+        how = rng.choice(["middle", "middle", "middle", "swap", "same", "edges"])
+        if how == "middle" and L >= 8:
+            a, b2 = sorted(rng.sample(range(3, L - 3), 2))
+            for j in range(a, b2 + 1):
+                prev[j] = rng.randint(0, 1)
+            prev[a] = 1 - bits[a]
+        elif how == "swap" and L >= 8:
+            ones = [j for j in range(3, L - 3) if bits[j] == 1]
+            zeros = [j for j in range(3, L - 3) if bits[j] == 0]
+            if ones and zeros:
+                x, y = rng.choice(ones), rng.choice(zeros)
+                prev[x], prev[y] = 0, 1
+        elif how == "edges":
+            prev[0], prev[-1] = 1 - prev[0], 1 - prev[-1]
+        table = gen.random_table(rng, len(rows)) if rng.random() < 0.4 else None
+        yield "roundtrip", {"k": k, "rows": rows, "v0": v0, "bits": bits, "fast": fast, "table": table, "prev": prev,
+                            "vt": rng.choice([0, 0, 2, 33]), "kind": kind, "reuse": rng.random() < 0.5}
 
 
 def build(stream, p):
@@ -60,6 +91,13 @@ def build(stream, p):
     def run():
         arr = gen.acc_array(rows, reuse=p.get("reuse", False))
         a = arr if p.get("reuse", False) else gen.counting(rows, 2 * fuel + 4)
+        if p.get("prev") is not None:
+            try:                                   # the related round trip that precedes the call under test
+                e0 = dsw.encode(np.array(p["prev"], dtype=int), arr, v0, is_faster=fast, vt_length=vt, shuffles=tab)
+                s0, c0 = (e0 if vt > 0 else (e0, None))
+                dsw.decode(s0, len(p["prev"]), arr, v0, is_faster=fast, vt_check=c0, shuffles=tab)
+            except ValueError:
+                pass
         e = dsw.encode(np.array(bits, dtype=int), a, v0, is_faster=fast, vt_length=vt, shuffles=tab)
         s, chk = (e if vt > 0 else (e, None))
         d = dsw.decode(s, L, arr, v0, is_faster=fast, vt_check=chk, shuffles=tab)
@@ -89,3 +127,7 @@ def shrink(stream, p):
         yield dict(p, vt=0)
     if p["table"] is not None:
         yield dict(p, table=None)
+    if p.get("prev") is not None and len(p["prev"]) == len(b) and len(b) > 8:
+        h = len(b) // 2
+        yield dict(p, bits=b[:h], prev=p["prev"][:h])
+        yield dict(p, bits=b[h:], prev=p["prev"][h:])
